@@ -31,6 +31,8 @@ pub enum Step {
     /// contract: it must never stand in for the operation on the controller itself
     ScheduleDecoy { k: usize, delay_over_min: i64 },
     SelfExec { k: usize, meta: Meta, executor_signs: bool },
+    /// renounce_role(role, caller = holder): 0 proposer · 1 canceller · 2 executor; unsigned = somebody else submits it
+    Renounce { role: u8, holder: usize, signed: bool },
     Advance { n: u32 },
 }
 #[derive(Clone, Debug, Serialize, Deserialize)]
@@ -43,6 +45,9 @@ pub struct Cfg {
     /// 3 transfer_admin_role(actor 3, start_ledger + 2 000 000) · 4 renounce_admin() · 5 set_role_admin(canceller, proposer)
     #[serde(default)]
     pub kinds: std::vec::Vec<u8>,
+    /// op k names op preds[k] (an earlier op) as its predecessor
+    #[serde(default)]
+    pub preds: std::vec::Vec<Option<usize>>,
 }
 // actors: 0 stranger/attacker, 1 proposer(+canceller), 2 executor, 3 other
 #[derive(Clone, Copy, Debug, PartialEq)]
@@ -58,6 +63,8 @@ struct Model {
     min: u32,
     now: u32,
     cancellers: std::collections::BTreeSet<usize>,
+    proposers: std::collections::BTreeSet<usize>,
+    executors: std::collections::BTreeSet<usize>,
     /// last ledger at which an executed transfer_admin_role offer is still stored
     pending_until: Option<u32>,
     admin_gone: bool,
@@ -71,6 +78,9 @@ enum Exp {
 }
 fn offer_until(cfg: &Cfg) -> u32 {
     cfg.start_ledger + 2_000_000
+}
+fn pred_of(cfg: &Cfg, k: usize) -> Option<usize> {
+    cfg.preds.get(k).copied().flatten().filter(|p| *p < k)
 }
 fn kind_of(cfg: &Cfg, k: usize) -> u8 {
     cfg.kinds.get(k).copied().unwrap_or(0)
@@ -103,24 +113,31 @@ impl Model {
             _ => true,
         }
     }
+    fn ready(&self, cfg: &Cfg, k: usize) -> bool {
+        matches!(self.st[k], S::Pending(r) if r <= self.now) && pred_of(cfg, k).map(|p| self.st[p] == S::Done).unwrap_or(true)
+    }
+    fn renounce(&mut self, role: u8, holder: usize, signed: bool) -> bool {
+        let set = match role { 0 => &mut self.proposers, 1 => &mut self.cancellers, _ => &mut self.executors };
+        signed && set.remove(&holder)
+    }
     fn self_exec(&mut self, cfg: &Cfg, k: usize, meta: Meta, executor_signs: bool) -> Exp {
-        let ready = matches!(self.st[k], S::Pending(r) if r <= self.now);
-        let exec_ok = if cfg.with_executors { executor_signs } else { true };
-        match meta {
-            _ if !self.call_ok(cfg, k) => Exp::Fail,
-            Meta::Honest if ready && exec_ok => {
-                self.st[k] = S::Done;
-                self.effect(cfg, k);
-                Exp::Ok
-            }
+        let ready = self.ready(cfg, k);
+        // an executor is needed only while the executor role has members (actor 2, unless it renounced)
+        let need_exec = !self.executors.is_empty();
+        let ok = match meta {
+            _ if !self.call_ok(cfg, k) => false,
+            Meta::Honest => ready && (!need_exec || (executor_signs && self.executors.contains(&2))),
             // without executors configured the executor field is irrelevant
-            Meta::NoExecutor | Meta::StrangerExecutor if !cfg.with_executors && ready => {
-                self.st[k] = S::Done;
-                self.effect(cfg, k);
-                Exp::Ok
-            }
-            Meta::Extra => Exp::Unspecified,
-            _ => Exp::Fail,
+            Meta::NoExecutor | Meta::StrangerExecutor => ready && !need_exec,
+            Meta::Extra => return Exp::Unspecified,
+            _ => false,
+        };
+        if ok {
+            self.st[k] = S::Done;
+            self.effect(cfg, k);
+            Exp::Ok
+        } else {
+            Exp::Fail
         }
     }
 }
@@ -143,11 +160,20 @@ impl Check for Controller {
     fn components(&self) -> serde_json::Value {
         serde_json::json!({"real": ["examples/timelock-controller (from source): __check_auth, schedule_op, cancel_op, update_delay, AccessControl", "timelock storage", "access_control storage", "macros"], "stub": ["Wallet for proposer / executor / attacker"]})
     }
+    fn property_of(&self, check: &str) -> std::vec::Vec<&'static str> {
+        // the self-administration path executes timelocked operations (set_execute_operation): scheduled, ready, predecessor
+        // done, consumed once — C08's clauses as much as C09's; who may schedule / cancel / renounce is C09's (and C06's)
+        if check.starts_with("roles.") {
+            vec!["C06", "C09"]
+        } else {
+            vec!["C08", "C09"]
+        }
+    }
     fn clock_step(&self, n: u32) -> Option<Step> {
         Some(Step::Advance { n })
     }
     fn probes(&self, _prop: &str) -> std::vec::Vec<&'static str> {
-        vec!["probe.decoy_next_to_pending_original", "probe.decoy_without_original", "probe.self_admin_with_only_the_decoy_ready"]
+        vec!["probe.decoy_next_to_pending_original", "probe.decoy_without_original", "probe.self_admin_with_only_the_decoy_ready", "probe.self_admin_with_predecessor_not_done", "probe.executor_renounced"]
     }
     fn dup_ok(&self, _s: &Step) -> bool {
         true
@@ -157,15 +183,16 @@ impl Check for Controller {
     }
     fn generate(&self, rng: &mut Rng, tier: Tier) -> (Cfg, std::vec::Vec<Step>) {
         let nops = 2 + rng.below(3) as usize;
-        let cfg = Cfg { start_ledger: 2 + rng.below(100_000) as u32, min_delay: 1 + rng.below(20) as u32, with_executors: rng.chance(60), delays: (0..nops).map(|k| [0u32, 3, 40, 7, 1][k % 5] + rng.below(2) as u32 * 100).collect(), kinds: (0..nops).map(|_| match rng.below(100) { 0..=44 => 0, 45..=59 => 1, 60..=74 => 2, 75..=84 => 3, 85..=91 => 4, _ => 5 }).collect() };
+        let cfg = Cfg { start_ledger: 2 + rng.below(100_000) as u32, min_delay: 1 + rng.below(20) as u32, with_executors: rng.chance(60), delays: (0..nops).map(|k| [0u32, 3, 40, 7, 1][k % 5] + rng.below(2) as u32 * 100).collect(), preds: (0..nops).map(|k| if k > 0 && rng.chance(30) { Some(rng.below(k as u64) as usize) } else { None }).collect(), kinds: (0..nops).map(|_| match rng.below(100) { 0..=44 => 0, 45..=59 => 1, 60..=74 => 2, 75..=84 => 3, 85..=91 => 4, _ => 5 }).collect() };
         let nsteps = if tier == Tier::Quick { 20 + rng.below(30) } else { 20 + rng.below(60) } as usize;
-        let mut m = Model { st: vec![S::Unset; nops], decoy: vec![S::Unset; nops], min: cfg.min_delay, now: cfg.start_ledger, cancellers: [1usize].into_iter().collect(), pending_until: None, admin_gone: false, role_admin_set: false };
+        let mut m = Model { st: vec![S::Unset; nops], decoy: vec![S::Unset; nops], min: cfg.min_delay, now: cfg.start_ledger, cancellers: [1usize].into_iter().collect(), proposers: [1usize].into_iter().collect(), executors: if cfg.with_executors { [2usize].into_iter().collect() } else { Default::default() }, pending_until: None, admin_gone: false, role_admin_set: false };
         let mut steps = vec![];
         for _ in 0..nsteps {
             let k = rng.below(nops as u64) as usize;
             let s = match rng.below(100) {
                 0..=24 => Step::Schedule { k, delay_over_min: match rng.below(5) { 0 => -1, 1 => 0, _ => rng.below(5) as i64 }, proposer: if rng.chance(88) { 1 } else { 0 }, signed: !rng.chance(6) },
-                25..=27 => Step::ScheduleDecoy { k, delay_over_min: rng.below(3) as i64 },
+                25..=26 => Step::ScheduleDecoy { k, delay_over_min: rng.below(3) as i64 },
+                27 => Step::Renounce { role: rng.below(3) as u8, holder: if rng.chance(80) { 1 + rng.below(2) as usize } else { rng.below(4) as usize }, signed: rng.chance(65) },
                 28..=32 => Step::Cancel { k, canceller: match rng.below(10) { 0 => 0, 1..=3 => 3, _ => 1 }, signed: !rng.chance(6) },
                 33..=74 => {
                     let meta = match rng.below(12) { 0..=4 => Meta::Honest, 5 => Meta::Empty, 6 => Meta::Void, 7 => Meta::WrongSalt, 8 => Meta::WrongPred, 9 => Meta::NoExecutor, 10 => Meta::StrangerExecutor, _ => Meta::Extra };
@@ -180,7 +207,7 @@ impl Check for Controller {
                 Step::Advance { n } => m.now += n,
                 Step::Schedule { k, delay_over_min, proposer, signed } => {
                     let d = (m.min as i64 + delay_over_min).max(0) as u32;
-                    if *signed && *proposer == 1 && m.st[*k] == S::Unset && d >= m.min {
+                    if *signed && m.proposers.contains(proposer) && m.st[*k] == S::Unset && d >= m.min {
                         m.st[*k] = S::Pending(m.now.saturating_add(d));
                     }
                 }
@@ -191,12 +218,15 @@ impl Check for Controller {
                 }
                 Step::ScheduleDecoy { k, delay_over_min } => {
                     let d = (m.min as i64 + delay_over_min).max(0) as u32;
-                    if m.decoy[*k] == S::Unset {
+                    if m.decoy[*k] == S::Unset && m.proposers.contains(&1) {
                         m.decoy[*k] = S::Pending(m.now.saturating_add(d));
                     }
                 }
                 Step::SelfExec { k, meta, executor_signs } => {
                     m.self_exec(&cfg, *k, *meta, *executor_signs);
+                }
+                Step::Renounce { role, holder, signed } => {
+                    m.renounce(*role, *holder, *signed);
                 }
             }
             steps.push(s);
@@ -225,11 +255,16 @@ impl Check for Controller {
                 _ => (canceller_role.clone(), Symbol::new(e, "proposer")).into_val(e),
             }
         };
-        let ids: std::vec::Vec<BytesN<32>> = (0..cfg.delays.len()).map(|k| c.hash_operation(&id, &fname_of(k), &args_of(k), &zero, &salt(k))).collect();
+        let mut ids: std::vec::Vec<BytesN<32>> = vec![];
+        for k in 0..cfg.delays.len() {
+            let pred = pred_of(cfg, k).map(|p| ids[p].clone()).unwrap_or(zero.clone());
+            ids.push(c.hash_operation(&id, &fname_of(k), &args_of(k), &pred, &salt(k)));
+        }
+        let pred_id = |k: usize| pred_of(cfg, k).map(|p| ids[p].clone()).unwrap_or(zero.clone());
         // the decoys' target: some other contract (never invoked)
         let other = a(3);
-        let decoy_ids: std::vec::Vec<BytesN<32>> = (0..cfg.delays.len()).map(|k| c.hash_operation(&other, &fname_of(k), &args_of(k), &zero, &salt(k))).collect();
-        let mut m = Model { st: vec![S::Unset; cfg.delays.len()], decoy: vec![S::Unset; cfg.delays.len()], min: cfg.min_delay, now: cfg.start_ledger, cancellers: [1usize].into_iter().collect(), pending_until: None, admin_gone: false, role_admin_set: false };
+        let decoy_ids: std::vec::Vec<BytesN<32>> = (0..cfg.delays.len()).map(|k| c.hash_operation(&other, &fname_of(k), &args_of(k), &pred_id(k), &salt(k))).collect();
+        let mut m = Model { st: vec![S::Unset; cfg.delays.len()], decoy: vec![S::Unset; cfg.delays.len()], min: cfg.min_delay, now: cfg.start_ledger, cancellers: [1usize].into_iter().collect(), proposers: [1usize].into_iter().collect(), executors: if cfg.with_executors { [2usize].into_iter().collect() } else { Default::default() }, pending_until: None, admin_gone: false, role_admin_set: false };
         for (i, s) in steps.iter().enumerate() {
             w.set_auth(&[]);
             let before = w.storage_digest(&[&id]);
@@ -241,12 +276,12 @@ impl Check for Controller {
                 }
                 Step::Schedule { k, delay_over_min, proposer, signed } => {
                     let d = (m.min as i64 + delay_over_min).max(0) as u32;
-                    let args: Vec<Val> = (id.clone(), fname_of(*k), args_of(*k), zero.clone(), salt(*k), d, a(*proposer)).into_val(e);
+                    let args: Vec<Val> = (id.clone(), fname_of(*k), args_of(*k), pred_id(*k), salt(*k), d, a(*proposer)).into_val(e);
                     if *signed {
                         w.set_auth(&[(*proposer, Inv::new(&id, "schedule_op", args))]);
                     }
-                    let got = c.try_schedule_op(&id, &fname_of(*k), &args_of(*k), &zero, &salt(*k), &d, &a(*proposer)).is_ok();
-                    let exp = *signed && *proposer == 1 && m.st[*k] == S::Unset && d >= m.min;
+                    let got = c.try_schedule_op(&id, &fname_of(*k), &args_of(*k), &pred_id(*k), &salt(*k), &d, &a(*proposer)).is_ok();
+                    let exp = *signed && m.proposers.contains(proposer) && m.st[*k] == S::Unset && d >= m.min;
                     st.tx("schedule_op", got);
                     if got != exp {
                         return Err(violation("roles.schedule_cancel_execute", "schedule_op", i, format!("{s:?}: real {got} model {exp}; {m:?}")));
@@ -269,12 +304,27 @@ impl Check for Controller {
                         m.st[*k] = S::Unset;
                     }
                 }
+                Step::Renounce { role, holder, signed } => {
+                    let rs = Symbol::new(e, ["proposer", "canceller", "executor"][*role as usize]);
+                    if *signed {
+                        w.set_auth(&[(*holder, Inv::new(&id, "renounce_role", (rs.clone(), a(*holder)).into_val(e)))]);
+                    } else {
+                        st.hit("fault.auth_missing");
+                    }
+                    let got = c.try_renounce_role(&rs, &a(*holder)).is_ok();
+                    let exp = m.renounce(*role, *holder, *signed);
+                    st.tx("renounce_role", got);
+                    if got && *role == 2 { st.hit("probe.executor_renounced"); }
+                    if got != exp {
+                        return Err(violation("roles.schedule_cancel_execute", "renounce_role", i, format!("{s:?}: real {got} model {exp}; {m:?}")));
+                    }
+                }
                 Step::ScheduleDecoy { k, delay_over_min } => {
                     let d = (m.min as i64 + delay_over_min).max(0) as u32;
-                    let args: Vec<Val> = (other.clone(), fname_of(*k), args_of(*k), zero.clone(), salt(*k), d, a(1)).into_val(e);
+                    let args: Vec<Val> = (other.clone(), fname_of(*k), args_of(*k), pred_id(*k), salt(*k), d, a(1)).into_val(e);
                     w.set_auth(&[(1, Inv::new(&id, "schedule_op", args))]);
-                    let got = c.try_schedule_op(&other, &fname_of(*k), &args_of(*k), &zero, &salt(*k), &d, &a(1)).is_ok();
-                    let exp = m.decoy[*k] == S::Unset;
+                    let got = c.try_schedule_op(&other, &fname_of(*k), &args_of(*k), &pred_id(*k), &salt(*k), &d, &a(1)).is_ok();
+                    let exp = m.decoy[*k] == S::Unset && m.proposers.contains(&1);
                     st.tx("schedule_decoy", got);
                     if got {
                         st.hit(if matches!(m.st[*k], S::Pending(_)) { "probe.decoy_next_to_pending_original" } else { "probe.decoy_without_original" });
@@ -291,7 +341,7 @@ impl Check for Controller {
                         st.hit("probe.self_admin_with_only_the_decoy_ready");
                     }
                     // anyone (actor 0) calls update_delay(d) directly, attaching an entry for the controller's own address
-                    let good = OperationMeta { predecessor: zero.clone(), salt: salt(*k), executor: Some(a(2)) };
+                    let good = OperationMeta { predecessor: pred_id(*k), salt: salt(*k), executor: Some(a(2)) };
                     let metas: Option<Vec<OperationMeta>> = match meta {
                         Meta::Honest => Some(svec![e, good.clone()]),
                         Meta::Empty => Some(Vec::new(e)),
@@ -318,14 +368,17 @@ impl Check for Controller {
                         root_invocation: inv.to_xdr(e),
                     };
                     // executor (actor 2; the stranger for StrangerExecutor) authorises the execute_op-tagged arguments
-                    let exec_args: Vec<Val> = (Symbol::new(e, "execute_op"), id.clone(), fname_of(*k), args_of(*k), zero.clone(), salt(*k)).into_val(e);
+                    let exec_args: Vec<Val> = (Symbol::new(e, "execute_op"), id.clone(), fname_of(*k), args_of(*k), pred_id(*k), salt(*k)).into_val(e);
                     let mut wallets = vec![];
                     if *executor_signs {
                         let who = if *meta == Meta::StrangerExecutor { 0 } else { 2 };
                         wallets.push((who, Inv::new(&id, "__check_auth", exec_args)));
                     }
                     w.set_auth_mixed(&wallets, vec![entry]);
-                    let was_ready = matches!(m.st[*k], S::Pending(r) if r <= m.now);
+                    let was_ready = m.ready(cfg, *k);
+                    if matches!(m.st[*k], S::Pending(r) if r <= m.now) && !was_ready {
+                        st.hit("probe.self_admin_with_predecessor_not_done");
+                    }
                     let got = e.try_invoke_contract::<Val, soroban_sdk::Error>(&id, &fname_of(*k), args_of(*k)).map(|r| r.is_ok()).unwrap_or(false);
                     let snapshot = m.clone();
                     let exp = m.self_exec(cfg, *k, *meta, *executor_signs);
@@ -367,6 +420,11 @@ impl Check for Controller {
                 }
             }
             for x in 0..4usize {
+                if c.has_role(&a(x), &Symbol::new(e, "proposer")).is_some() != m.proposers.contains(&x) || c.has_role(&a(x), &Symbol::new(e, "executor")).is_some() != m.executors.contains(&x) {
+                    return Err(violation("roles.schedule_cancel_execute", "roles", i, format!("proposer / executor role of actor {x} disagrees with the model {m:?} after {s:?}")));
+                }
+            }
+            for x in 0..4usize {
                 if c.has_role(&a(x), &canceller_role).is_some() != m.cancellers.contains(&x) {
                     return Err(violation("self_admin.needs_ready_op_consumed", "roles", i, format!("canceller role of actor {x} disagrees with the model {:?} after {s:?}", m.cancellers)));
                 }
@@ -377,7 +435,7 @@ impl Check for Controller {
             if c.get_role_admin(&canceller_role).is_some() != m.role_admin_set {
                 return Err(violation("self_admin.needs_ready_op_consumed", "role_admin", i, format!("admin role of canceller {:?}, model set={} after {s:?}", c.get_role_admin(&canceller_role), m.role_admin_set)));
             }
-            st.state(&(m.st.iter().map(|x| match x { S::Unset => 0u8, S::Done => 3, S::Pending(r) => if *r > m.now { 1 } else { 2 } }).collect::<std::vec::Vec<_>>(), cfg.with_executors, cfg.kinds.clone(), m.cancellers.clone(), m.admin_gone, m.role_admin_set, matches!(m.pending_until, Some(u) if m.now <= u), m.decoy.iter().map(|x| match x { S::Pending(r) => if *r > m.now { 1u8 } else { 2 }, _ => 0 }).collect::<std::vec::Vec<_>>()));
+            st.state(&(m.st.iter().map(|x| match x { S::Unset => 0u8, S::Done => 3, S::Pending(r) => if *r > m.now { 1 } else { 2 } }).collect::<std::vec::Vec<_>>(), cfg.with_executors, cfg.kinds.clone(), m.cancellers.clone(), m.proposers.clone(), m.executors.clone(), cfg.preds.clone(), m.admin_gone, m.role_admin_set, matches!(m.pending_until, Some(u) if m.now <= u), m.decoy.iter().map(|x| match x { S::Pending(r) => if *r > m.now { 1u8 } else { 2 }, _ => 0 }).collect::<std::vec::Vec<_>>()));
         }
         Ok(())
     }
